@@ -17,9 +17,12 @@ import (
 
 	sdkmath "cosmossdk.io/math"
 	sdk "github.com/cosmos/cosmos-sdk/types"
+	authtypes "github.com/cosmos/cosmos-sdk/x/auth/types"
+	govtypes "github.com/cosmos/cosmos-sdk/x/gov/types"
 	channeltypes "github.com/cosmos/ibc-go/v8/modules/core/04-channel/types"
 	"github.com/cosmos/ibc-go/v8/modules/core/exported"
 
+	onboardingkeeper "github.com/Canto-Network/Canto/v8/x/onboarding/keeper"
 	onboardingtypes "github.com/Canto-Network/Canto/v8/x/onboarding/types"
 )
 
@@ -35,6 +38,8 @@ type c11Packet struct {
 	Enabled   bool     `json:"enabled"`
 	Whitelist []string `json:"whitelist"`
 	Threshold string   `json:"threshold"`
+	// how this parameter set is committed: "" keeper SetParams | "msg" MsgUpdateParams with the gov authority | "legacy" ParameterChangeProposal
+	ParamRoute string `json:"param_route,omitempty"`
 	// the packet
 	Denom        int    `json:"denom"`                 // index into the denomination table
 	Channel      string `json:"channel,omitempty"`     // destination channel (coins returning home; vouchers fix their channel)
@@ -160,7 +165,19 @@ func (w *c11World) c11Exec(e *Env, kase *c11Case, gen func(ctx sdk.Context, i in
 			w.c11ApplyPrep(ctx, rcptAddr, d, pr, fee, wl)
 		}
 		thr := bigOf(pk.Threshold)
-		w.ok.SetParams(ctx, onboardingtypes.NewParams(pk.Enabled, c11Int(thr), pk.Whitelist))
+		committed := onboardingtypes.NewParams(pk.Enabled, c11Int(thr), pk.Whitelist)
+		w.c11CommitParams(ctx, committed, pk.ParamRoute)
+		e.Stats.Count("kind:params-committed-through:" + map[string]string{"": "keeper", "msg": "MsgUpdateParams", "legacy": "ParameterChangeProposal"}[pk.ParamRoute])
+		// a parameter update on a branch that is thrown away must not be visible afterwards; what the keeper reports must
+		// be the update this history committed (the model is handed the COMMITTED parameters)
+		if how := w.c11GhostParams(ctx, committed); how != "" {
+			e.Stats.Count("kind:ghost-parameter-update:" + how)
+		}
+		if got := w.ok.GetParams(ctx); !c11SameParams(got, committed) {
+			e.Stats.ImplFailures = append(e.Stats.ImplFailures, ImplFailure{Case: caseIdx, Step: i, Monitor: "onboarding-params-differ-from-last-committed-update",
+				Detail: fmt.Sprintf("keeper reports enabled=%v whitelist=%v threshold=%s; the last committed update was enabled=%v whitelist=%v threshold=%s",
+					got.EnableOnboarding, got.WhitelistedChannels, got.AutoSwapThreshold, committed.EnableOnboarding, committed.WhitelistedChannels, committed.AutoSwapThreshold)})
+		}
 		amt := bigOf(pk.Amount)
 
 		// ---- oracle inputs: what the registries say right now
@@ -345,6 +362,68 @@ func (w *c11World) c11Exec(e *Env, kase *c11Case, gen func(ctx sdk.Context, i in
 	e.Stats.Sample(kase)
 }
 
+func c11SameParams(a, b onboardingtypes.Params) bool {
+	if a.EnableOnboarding != b.EnableOnboarding || a.AutoSwapThreshold.IsNil() != b.AutoSwapThreshold.IsNil() ||
+		(!a.AutoSwapThreshold.IsNil() && !a.AutoSwapThreshold.Equal(b.AutoSwapThreshold)) || len(a.WhitelistedChannels) != len(b.WhitelistedChannels) {
+		return false
+	}
+	for i := range a.WhitelistedChannels {
+		if a.WhitelistedChannels[i] != b.WhitelistedChannels[i] {
+			return false
+		}
+	}
+	return true
+}
+
+func (w *c11World) c11UpdateMsg(p onboardingtypes.Params) *onboardingtypes.MsgUpdateParams {
+	return &onboardingtypes.MsgUpdateParams{Authority: authtypes.NewModuleAddress(govtypes.ModuleName).String(), Params: p}
+}
+
+// c11CommitParams: a parameter update that IS committed, through one of the three routes that exist
+func (w *c11World) c11CommitParams(ctx sdk.Context, p onboardingtypes.Params, route string) {
+	switch {
+	case route == "msg":
+		_, err := onboardingkeeper.NewMsgServerImpl(*w.ok).UpdateParams(ctx, w.c11UpdateMsg(p))
+		c04Must(err)
+	case route == "legacy" && len(p.WhitelistedChannels) > 0:
+		// Subspace.Update decodes the JSON over the stored value: amino JSON of an empty list is `null`, which would leave
+		// the stored list in place, so an empty whitelist is never submitted this way
+		c04Must(c17LegacyParamChange(w.a, ctx, w.c11UpdateMsg(p)))
+	default:
+		w.ok.SetParams(ctx, p)
+	}
+}
+
+// c11GhostParams: with probability 1/4 (always in a replay) a DIFFERENT parameter set (onboarding switched on, every
+// channel whitelisted or none, another threshold) is written on a branch of state that is then discarded — a governance
+// proposal [onboarding MsgUpdateParams, <message that fails>], a simulation.  On code whose parameters live in the store
+// this has no effect; a copy kept outside the store would make the next packet act under parameters never committed.
+func (w *c11World) c11GhostParams(ctx sdk.Context, cur onboardingtypes.Params) (how string) {
+	if ghostOff || !(ghostAlways || ghostRng.Intn(4) == 0) {
+		return ""
+	}
+	defer func() { _ = recover() }()
+	v := ghostRng.Intn(3)
+	p := onboardingtypes.Params{EnableOnboarding: true, AutoSwapThreshold: cur.AutoSwapThreshold,
+		WhitelistedChannels: []string{"channel-0", "channel-1", "channel-5", "channel-00", "transfer"}}
+	switch {
+	case v == 0 && cur.EnableOnboarding:
+		p.EnableOnboarding = false
+	case v == 1 && len(cur.WhitelistedChannels) >= 3:
+		p.WhitelistedChannels = []string{"channel-7"}
+	case v == 2 || c11SameParams(p, cur):
+		p.AutoSwapThreshold = cur.AutoSwapThreshold.MulRaw(2).AddRaw(1)
+	}
+	g, _ := ctx.CacheContext()
+	GhostRuns++
+	if ghostRng.Intn(3) == 0 {
+		_ = c17LegacyParamChange(w.a, g, w.c11UpdateMsg(p))
+		return "ParameterChangeProposal-on-discarded-branch"
+	}
+	_, _ = onboardingkeeper.NewMsgServerImpl(*w.ok).UpdateParams(g, w.c11UpdateMsg(p))
+	return "MsgUpdateParams-on-discarded-branch"
+}
+
 func c11Int(x *big.Int) sdkmath.Int { return sdkmath.NewIntFromBigInt(x) }
 
 func c11Contains(l []string, s string) bool {
@@ -471,7 +550,7 @@ func runC11(e *Env) {
 			for k := 0; k < 4; k++ {
 				pk := c11Packet{Enabled: true, Whitelist: wl, Threshold: thr.String(), Denom: di, Channel: dst,
 					SrcChannel: []string{"channel-0", "channel-9"}[k%2], Amount: big.NewInt(int64(1000 + e.Pick(1_000_000))).String(),
-					BadRecipient: k%2 == 0, Plan: c04Plan{FailAt: 1 + (k+ri+di)%4}}
+					BadRecipient: k%2 == 0, Plan: c04Plan{FailAt: 1 + (k+ri+di)%4}, ParamRoute: []string{"", "msg", "legacy"}[(k+ri)%3]}
 				if k == 3 {
 					pk.BadSender, pk.BadRecipient = true, e.Chance(0.5)
 				}
@@ -587,6 +666,12 @@ func runC11(e *Env) {
 			if i > 0 && e.Chance(0.1) { // governance changes the parameters between packets
 				pk.Enabled = e.Chance(0.7)
 				pk.Threshold = e.c11Threshold().String()
+			}
+			switch r := e.Pick(10); {
+			case r < 3:
+				pk.ParamRoute = "msg"
+			case r < 5 && len(pk.Whitelist) > 0:
+				pk.ParamRoute = "legacy"
 			}
 			d := w.denoms[pk.Denom]
 			rcptAddr := w.c11Rcpt(kase.Rcpt)
